@@ -194,6 +194,17 @@ Fixpoint call_items_from (ff : frame * frame) (cs : list (call A D)) : list (ite
       end
   end.
 Definition call_items (cs : list (call A D)) : list (item R) := call_items_from (ff_one R rI) cs.
+
+(* _single_shot (492-518) with the noise-free gate set, as the `perform` argument of SimRun.run_model: the calls of the loop on
+   the layout and nqubit that run() derived (front_out), the statevector of the stored item list on psi0 (builder and backend:
+   C11 / C02, C03_builder_backend_run), and the Born rule np.square(np.absolute(psi)) entry by entry -- `born` on the
+   amplitudes, in the order of the basis states (SimRun.binary_vector: index i <-> the nqubit-character binary numeral of i,
+   qubit 0 = first character).  Every shot of a deterministic gate set returns this vector; the mean over the shots is C09. *)
+Variable V : Type.
+Variable born : R -> V.
+Definition nf_perform (theta : nat -> A) (dur : nat -> D) (data : list qinstr) (psi0 : state R) (f : front_out) : res (list V) :=
+  cs <- translate_calls A D theta dur (f_used f) (f_nqubit f) data ;;
+  Ok (map (fun b => born (sem R radd rmul (call_items cs) psi0 b)) (binary_vector (Z.to_nat (f_nqubit f)))).
 End Items.
 
 (* ================================================================== views compared exactly with the implementation *)
